@@ -8,6 +8,10 @@ exact-arithmetic reading.
 namespace Bpp.DistKernels
 open Bpp Bpp.Scalar Bpp.PNorm
 
+/-- the real numbers have no infinite element: over `ℝ` the guard `isinf(x)` (cpp:158) is vacuous -/
+instance : InfTest ℝ := ⟨fun _ => false⟩
+@[simp] theorem isInf_real (x : ℝ) : InfTest.isInf x = false := rfl
+
 /-! ### generic loop facts -/
 
 /-- more fuel never changes a delivered answer -/
@@ -64,6 +68,24 @@ theorem iterCap_inr_inv {σ β : Type} (step : σ → Sum σ β) (P : β → Pro
       have : b' = b := by simpa using hb
       exact this ▸ h s b' hs
 
+
+/-- an early exit of a capped loop, with an invariant of the state -/
+theorem iterCap_inr_inv' {σ β : Type} (step : σ → Sum σ β) (I : σ → Prop) (P : β → Prop)
+    (hI : ∀ s s', I s → step s = .inl s' → I s') (h : ∀ s b, I s → step s = .inr b → P b) :
+    ∀ (n : Nat) (s : σ) (b : β), I s → iterCap step n s = .inr b → P b := by
+  intro n
+  induction n with
+  | zero => intro s b _ hb; simp [iterCap] at hb
+  | succ n ih =>
+    intro s b hs0 hb
+    simp only [iterCap] at hb
+    cases hs : step s with
+    | inl s' => rw [hs] at hb; exact ih s' b (hI s s' hs0 hs) hb
+    | inr b' =>
+      rw [hs] at hb
+      have : b' = b := by simpa using hb
+      exact this ▸ h s b' hs0 hs
+
 /-- an invariant of the state is kept by a loop -/
 theorem iter_some_inv' {σ β : Type} (step : σ → Sum σ β) (I : σ → Prop) (P : β → Prop)
     (hI : ∀ s s', I s → step s = .inl s' → I s') (h : ∀ s b, I s → step s = .inr b → P b) :
@@ -96,6 +118,15 @@ theorem flat_iter_mono {σ α : Type} (step : σ → Sum σ (R α)) (n k : Nat) 
   cases hi : iter step n s with
   | none => rw [hi] at h; simp [flat] at h
   | some b => rw [hi] at h; rw [iter_mono step n k s b hi]; exact h
+
+
+/-- an outcome that is not a value passes through `map` unchanged -/
+theorem R.map_eq_bad {α : Type} (f : α → α) (r bad : R α) (hbad : ∀ v, bad ≠ .val v) (h : R.map f r = bad) :
+    r = bad := by
+  cases r with
+  | val v => exact absurd h.symm (hbad _)
+  | exc => exact h
+  | hang => exact h
 
 /-! ### constants at `ℝ` -/
 @[simp] theorem three_real : (three : ℝ) = 3 := by simp [three]
@@ -193,5 +224,60 @@ theorem igSeries_gin_ge_one (x : ℝ) (hx : 0 < x) :
       subst hs
       have := mul_nonneg b' hq0
       linarith
+
+/-! ### the power-series loop of `incompletebetaps` terminates for `β ≤ 2` (exact arithmetic) -/
+
+/-- from a state with `n ≥ 2 ≥ β`, `|v| ≤ |t|/α`, `|t|·x^m ≤ VERY_TINY`, `m + 1` rounds suffice: every
+factor `u = (n - β) x / n` lies in `[0, x]` -/
+theorem ps_loop_terminates (a b x : ℝ) (ha : 0 < a) (hb0 : 0 ≤ b) (hb2 : b ≤ 2) (hx0 : 0 < x) (hx1 : x < 1) :
+    ∀ (m : Nat) (fuel : Nat) (s : Ps ℝ), m + 1 ≤ fuel → 2 ≤ s.n → |s.v| ≤ |s.t| / a →
+      |s.t| * x ^ m ≤ tiny → (iter (psStep a b x (tiny * (one / a))) fuel s).isSome = true := by
+  have hz : (tiny : ℝ) * (one / a) = tiny / a := by simp [div_eq_mul_inv]
+  intro m
+  induction m with
+  | zero =>
+    intro fuel s hf hn hv ht
+    obtain ⟨k, rfl⟩ : ∃ k, fuel = k + 1 := ⟨fuel - 1, by omega⟩
+    simp only [pow_zero, mul_one] at ht
+    have : ¬ (tiny * (one / a) < |s.v|) := by
+      rw [hz]; push Not
+      calc |s.v| ≤ |s.t| / a := hv
+        _ ≤ tiny / a := div_le_div_of_nonneg_right ht (le_of_lt ha)
+    have hs : psStep a b x (tiny * (one / a)) s = .inr s := by
+      simp only [psStep, ScalarReal.gtb_iff, ScalarReal.abs_eq, this, if_false]
+    simp only [iter, hs]; rfl
+  | succ m ih =>
+    intro fuel s hf hn hv ht
+    obtain ⟨k, rfl⟩ : ∃ k, fuel = k + 1 := ⟨fuel - 1, by omega⟩
+    by_cases hc : tiny * (one / a) < |s.v|
+    · have hn0 : 0 < s.n := by linarith
+      have hu0 : 0 ≤ (s.n - b) * x / s.n := div_nonneg (mul_nonneg (by linarith) (le_of_lt hx0)) (le_of_lt hn0)
+      have hu1 : (s.n - b) * x / s.n ≤ x := by
+        rw [div_le_iff₀ hn0]
+        have : s.n - b ≤ s.n := by linarith
+        nlinarith
+      have hs : psStep a b x (tiny * (one / a)) s =
+          .inl ⟨s.n + one, s.t * ((s.n - b) * x / s.n), s.t * ((s.n - b) * x / s.n) / (a + s.n),
+            s.s + s.t * ((s.n - b) * x / s.n) / (a + s.n)⟩ := by
+        simp only [psStep, ScalarReal.gtb_iff, ScalarReal.abs_eq, hc, if_true]
+      simp only [iter, hs]
+      apply ih k _ (by omega)
+      · show (2 : ℝ) ≤ s.n + one
+        simp; linarith
+      · show |s.t * ((s.n - b) * x / s.n) / (a + s.n)| ≤ |s.t * ((s.n - b) * x / s.n)| / a
+        rw [abs_div]
+        have han : 0 < a + s.n := by linarith
+        rw [abs_of_pos han]
+        exact div_le_div_of_nonneg_left (abs_nonneg _) ha (by linarith)
+      · show |s.t * ((s.n - b) * x / s.n)| * x ^ m ≤ tiny
+        rw [abs_mul, abs_of_nonneg hu0]
+        have h2 : 0 ≤ x ^ m := pow_nonneg (le_of_lt hx0) m
+        calc |s.t| * ((s.n - b) * x / s.n) * x ^ m ≤ |s.t| * x * x ^ m :=
+              mul_le_mul_of_nonneg_right (mul_le_mul_of_nonneg_left hu1 (abs_nonneg _)) h2
+          _ = |s.t| * x ^ (m + 1) := by ring
+          _ ≤ tiny := ht
+    · have hs : psStep a b x (tiny * (one / a)) s = .inr s := by
+        simp only [psStep, ScalarReal.gtb_iff, ScalarReal.abs_eq, hc, if_false]
+      simp only [iter, hs]; rfl
 
 end Bpp.DistKernels
